@@ -47,6 +47,47 @@ impl RegistrationToken {
     }
 }
 
+#[cfg(calloop_verif)]
+impl RegistrationToken {
+    /// Verification hook: the key (with sub-id 0) of this registration.
+    pub fn verif_raw(&self) -> usize {
+        self.inner.into()
+    }
+}
+
+#[cfg(calloop_verif)]
+impl<Data> LoopHandle<'_, Data> {
+    /// Verification hook: snapshot of the loop's bookkeeping.
+    ///
+    /// Panics (like any other handle operation would) if called while the
+    /// loop holds one of its cells mutably borrowed.
+    pub fn verif_stats(&self) -> crate::verif::Stats {
+        let slot_list = self.inner.sources.borrow().verif_slots();
+        let lifecycle: Vec<(u32, u16)> = self
+            .inner
+            .sources_with_additional_lifecycle_events
+            .borrow()
+            .values
+            .iter()
+            .map(|t| {
+                let (id, version, _) = t.inner.verif_parts();
+                (id, version)
+            })
+            .collect();
+        let pending_action = self.inner.pending_action.get();
+        crate::verif::Stats {
+            slots: slot_list.len(),
+            occupied: slot_list.iter().filter(|s| s.2).count(),
+            slot_list,
+            lifecycle_len: lifecycle.len(),
+            lifecycle,
+            idles_len: self.inner.idles.borrow().len(),
+            timer_heap_len: self.inner.poll.borrow().timers.borrow().verif_len(),
+            pending_action,
+        }
+    }
+}
+
 pub(crate) struct LoopInner<'l, Data> {
     pub(crate) poll: RefCell<Poll>,
     // The `Option` is used to keep slots of the slab occupied, to prevent id reuse
@@ -466,7 +507,16 @@ impl<'l, Data> EventLoop<'l, Data> {
         let events = {
             let poll = self.handle.inner.poll.borrow();
             loop {
+                #[cfg(calloop_verif)]
+                {
+                    crate::verif::observe(crate::verif::Obs::WaitBegin {
+                        timeout_us: timeout.map(|t| t.as_micros() as u64),
+                    });
+                    crate::verif::yield_point("loop.wait.before");
+                }
                 let result = poll.poll(timeout);
+                #[cfg(calloop_verif)]
+                crate::verif::yield_point("loop.wait.after");
 
                 match result {
                     Ok(events) => break events,
@@ -509,6 +559,15 @@ impl<'l, Data> EventLoop<'l, Data> {
             }
         }
 
+        #[cfg(calloop_verif)]
+        {
+            let keys: Vec<usize> = self
+                .synthetic_events
+                .iter()
+                .map(|e| e.token.verif_raw())
+                .collect();
+            crate::verif::observe(crate::verif::Obs::Synthetic { keys: &keys });
+        }
         for event in self.synthetic_events.drain(..).chain(events) {
             // Get the registration token associated with the event.
             let reg_token = event.token.inner.forget_sub_id();
@@ -521,6 +580,11 @@ impl<'l, Data> EventLoop<'l, Data> {
                 .get(reg_token)
                 .ok()
                 .and_then(|entry| entry.source.clone());
+            #[cfg(calloop_verif)]
+            crate::verif::observe(crate::verif::Obs::Lookup {
+                key: event.token.verif_raw(),
+                found: opt_disp.is_some(),
+            });
 
             if let Some(disp) = opt_disp {
                 trace!(source = reg_token.get_id(), "Dispatching events for source");
@@ -535,6 +599,11 @@ impl<'l, Data> EventLoop<'l, Data> {
                 if let PostAction::Continue = ret {
                     ret = pending_action;
                 }
+                #[cfg(calloop_verif)]
+                crate::verif::observe(crate::verif::Obs::Apply {
+                    key: event.token.verif_raw(),
+                    action: ret,
+                });
 
                 match ret {
                     PostAction::Reregister => {
@@ -665,9 +734,15 @@ impl<'l, Data> EventLoop<'l, Data> {
     {
         let timeout = timeout.into();
         self.signals.stop.store(false, Ordering::Release);
+        #[cfg(calloop_verif)]
+        crate::verif::yield_point("loop.run.before_stop_check");
         while !self.signals.stop.load(Ordering::Acquire) {
+            #[cfg(calloop_verif)]
+            crate::verif::yield_point("loop.run.iter_begin");
             self.dispatch(timeout, data)?;
             cb(data);
+            #[cfg(calloop_verif)]
+            crate::verif::yield_point("loop.run.before_stop_check");
         }
         Ok(())
     }
@@ -693,14 +768,22 @@ impl<'l, Data> EventLoop<'l, Data> {
 
         impl Wake for EventLoopWaker {
             fn wake(self: Arc<Self>) {
+                #[cfg(calloop_verif)]
+                crate::verif::yield_point("blockon.wake.before");
                 // Set the waker.
                 self.0.signal.future_ready.store(true, Ordering::Release);
+                #[cfg(calloop_verif)]
+                crate::verif::yield_point("blockon.wake.between");
                 self.0.notifier.notify().ok();
             }
 
             fn wake_by_ref(self: &Arc<Self>) {
+                #[cfg(calloop_verif)]
+                crate::verif::yield_point("blockon.wake.before");
                 // Set the waker.
                 self.0.signal.future_ready.store(true, Ordering::Release);
+                #[cfg(calloop_verif)]
+                crate::verif::yield_point("blockon.wake.between");
                 self.0.notifier.notify().ok();
             }
         }
@@ -722,7 +805,11 @@ impl<'l, Data> EventLoop<'l, Data> {
         self.signals.stop.store(false, Ordering::Release);
         self.signals.future_ready.store(true, Ordering::Release);
 
+        #[cfg(calloop_verif)]
+        crate::verif::yield_point("blockon.before_stop_check");
         while !self.signals.stop.load(Ordering::Acquire) {
+            #[cfg(calloop_verif)]
+            crate::verif::yield_point("blockon.before_swap");
             // If the future is ready to be polled, poll it.
             if self.signals.future_ready.swap(false, Ordering::AcqRel) {
                 // Poll the future and break the loop if it's ready.
@@ -736,6 +823,8 @@ impl<'l, Data> EventLoop<'l, Data> {
             self.dispatch_events(None, data)?;
             self.dispatch_idles(data);
             cb(data);
+            #[cfg(calloop_verif)]
+            crate::verif::yield_point("blockon.before_stop_check");
         }
 
         Ok(output)
@@ -836,7 +925,11 @@ impl LoopSignal {
     ///
     /// This is only useful if you are using the `EventLoop::run()` method.
     pub fn stop(&self) {
+        #[cfg(calloop_verif)]
+        crate::verif::yield_point("signal.stop.before");
         self.signal.stop.store(true, Ordering::Release);
+        #[cfg(calloop_verif)]
+        crate::verif::yield_point("signal.stop.after");
     }
 
     /// Wake up the event loop
@@ -846,7 +939,11 @@ impl LoopSignal {
     /// ensures the event loop will terminate quickly if you specified a long
     /// timeout (or no timeout at all) to the `dispatch` or `run` method.
     pub fn wakeup(&self) {
+        #[cfg(calloop_verif)]
+        crate::verif::yield_point("signal.wakeup.before");
         self.notifier.notify().ok();
+        #[cfg(calloop_verif)]
+        crate::verif::yield_point("signal.wakeup.after");
     }
 }
 
